@@ -200,13 +200,30 @@ func c07History(h int, rng *hxlib.Rng, out *hxlib.Out) {
 		v := rng.Intn(len(vars))
 		m := rng.Intn(len(vars[v].meth))
 		b := rng.Intn(nb)
+		forcePf := false
+		if h%4 == 0 && i < 4 {
+			// structured opening of every fourth history: two methods of one variable (same signature) stubbed back to back
+			// through As+Return by one builder, then both are called -- each must reach its OWN replacement
+			v, b = 0, 0
+			m1, m2 := (h/4)%len(vars[0].meth), (h/4+1)%len(vars[0].meth)
+			switch i {
+			case 0:
+				k, m, forcePf = 0, m1, true
+			case 1:
+				k, m, forcePf = 0, m2, true
+			case 2:
+				k, m = 50, m1
+			default:
+				k, m = 50, m2
+			}
+		}
 		rec := map[string]interface{}{"kind": "op", "h": h, "i": i}
 		switch {
 		case k < 40: // mock
 			if dropped[b] {
 				continue
 			}
-			pf := rng.Intn(3) == 0
+			pf := rng.Intn(3) == 0 || forcePf
 			// a second Return through the same live stub EXTENDS its result sequence (C05) instead of installing a new
 			// replacement; that is not what this property is about, so the generator does not repeat it
 			if pf && pfDone[[3]int{b, v, m}] {
